@@ -28,6 +28,76 @@ type DepWalker struct {
 	seen       map[ssa.Value]bool
 	seenAlloc  map[ssa.Value]bool
 	depth      int // interprocedural descent depth
+	// FollowFieldStores: a load of a receiver field also depends on what the root function and its
+	// closures store into that field or into its elements (round.ok[j] = <-ch; later `range round.ok`)
+	FollowFieldStores bool
+	fstores           map[string][]ssa.Value
+	fdone             map[string]bool
+	// NoIndexControl: do not treat the counter of a counted loop as control-dependent on the branches
+	// of the loop body
+	NoIndexControl bool
+	// NoLoopCarriedControl: loop-header phis carry no control dependence on the loop body's branches
+	NoLoopCarriedControl bool
+	loopIdx              map[ssa.Value]bool
+	loopFns        map[*ssa.Function]bool
+}
+
+func (w *DepWalker) isLoopIndex(ph *ssa.Phi) bool {
+	fn := ph.Parent()
+	if w.loopFns == nil {
+		w.loopFns = map[*ssa.Function]bool{}
+		w.loopIdx = map[ssa.Value]bool{}
+	}
+	if !w.loopFns[fn] {
+		w.loopFns[fn] = true
+		for _, l := range Loops(fn) {
+			w.loopIdx[l.Idx] = true
+			// the counter phi itself (the body may use idx+… forms)
+			if p, ok := Strip(l.Idx).(*ssa.Phi); ok {
+				w.loopIdx[p] = true
+			}
+			if bo, ok := Strip(l.Idx).(*ssa.BinOp); ok {
+				if p, isP := Strip(bo.X).(*ssa.Phi); isP {
+					w.loopIdx[p] = true
+				}
+			}
+		}
+	}
+	return w.loopIdx[ph]
+}
+
+func (w *DepWalker) fieldStores(name string) {
+	if w.fdone == nil {
+		w.fdone = map[string]bool{}
+		w.fstores = map[string][]ssa.Value{}
+		for _, g := range WithClosures(w.Root) {
+			for _, b := range g.Blocks {
+				for _, in := range b.Instrs {
+					st, ok := in.(*ssa.Store)
+					if !ok {
+						continue
+					}
+					if fr := AsFieldAddr(st.Addr); fr != nil {
+						w.fstores[fr.Name] = append(w.fstores[fr.Name], st.Val)
+					}
+					if ia, ok := st.Addr.(*ssa.IndexAddr); ok {
+						if fr := AsFieldLoad(ia.X); fr != nil {
+							w.fstores[fr.Name] = append(w.fstores[fr.Name], st.Val)
+						} else if fr := AsFieldAddr(ia.X); fr != nil {
+							w.fstores[fr.Name] = append(w.fstores[fr.Name], st.Val)
+						}
+					}
+				}
+			}
+		}
+	}
+	if w.fdone[name] {
+		return
+	}
+	w.fdone[name] = true
+	for _, v := range w.fstores[name] {
+		w.Walk(v)
+	}
 }
 
 func NewDepWalker(root *ssa.Function, stopAtHash bool) *DepWalker {
@@ -267,6 +337,19 @@ func (w *DepWalker) Walk(v ssa.Value) {
 		for _, e := range x.Edges {
 			w.Walk(e)
 		}
+		if w.NoIndexControl && w.isLoopIndex(x) {
+			return // a loop counter takes every value of its range whatever the body's branches do
+		}
+		if w.NoLoopCarriedControl {
+			// a phi at a loop header merges the value from before the loop with the one carried round:
+			// which of the two arrives is decided by the iteration count, not by the body's branches
+			hb := x.Block()
+			for _, p := range hb.Preds {
+				if hb.Dominates(p) {
+					return
+				}
+			}
+		}
 		// control dependence: the branch conditions that select the incoming edge
 		b := x.Block()
 		if d := b.Idom(); d != nil {
@@ -356,6 +439,9 @@ func (w *DepWalker) recvField(fr *FieldRef) bool {
 		b = Strip(b)
 		if b == recv {
 			w.Out[fr.Name] = true
+			if w.FollowFieldStores {
+				w.fieldStores(fr.Name)
+			}
 			return true
 		}
 		if fv, ok := b.(*ssa.FreeVar); ok {
